@@ -6,9 +6,9 @@ EXTENDS WrapCMC, Randomization
 \* call sequences: small libraries whose functions may share a name (overload sets); a reduced kind set
 \* keeps the alphabet a product of small sets
 SeqKinds == <<"i8", "u16", "i32", "i64", "ulong", "f32", "f64", "bool", "enum", "cstr", "string",
-              "objPtr", "objRef", "objVal", "constObjRef">>
+              "objPtr", "objRef", "objVal", "constObjRef", "enumLL", "strPtr">>
 SeqRets == <<"u8", "i32", "u64", "f64", "string", "cstr", "objPtr", "objRef", "objVal", "void", "enum", "f32">>
-SeqParams == {<<>>} \cup {<<SeqKinds[p]>> : p \in 1..15} \cup {<<SeqKinds[p], SeqKinds[q]>> : p \in 1..15, q \in {3, 11, 12}}
+SeqParams == {<<>>} \cup {<<SeqKinds[p]>> : p \in 1..17} \cup {<<SeqKinds[p], SeqKinds[q]>> : p \in 1..17, q \in {3, 11, 12}}
 SeqCls == <<"K0", "K1", "KB", "Mix", "K3">>
 AlphaSeq == WF({Sig(fk, IF fk = "free" THEN "-" ELSE SeqCls[((r + Len(ps) + nm) % 5) + 1], nm, SeqRets[r], ps, nd) :
                   fk \in {"free", "method", "cmethod", "static"}, nm \in {0, 1},
